@@ -1,5 +1,6 @@
 (* C06 — gopar reads any conformant PAR2 set, however it is laid out.
-   Model: read_file (par2/file.go readFile), new_decoder, load_parity, parity_array in Model/Par2.v;
+   Model: read_file, read_file_vol (par2/file.go readFile, on the index file and on a recovery file),
+   new_decoder, load_parity, parity_array in Model/Par2.v;
    the directory listing of Model/FS.v (literal prefix and suffix). *)
 From Gopar Require Import Model.Base Model.CRC Model.GoPath Model.FS Model.Par2
      Proofs.Par2Facts Proofs.Par2Verify Proofs.Par2Create Proofs.Par2Layout.
@@ -23,6 +24,24 @@ Theorem C06_packet_loop : forall md5, (forall x, length (md5 x) = 16%nat) -> for
 Proof. exact read_file_frames. Qed.
 Print Assumptions C06_packet_loop.
 
+(* the same for the loop as LoadParityData runs it on a recovery file (read_file_vol): it starts from pf_vol0,
+   the state in which the creator packet counts as seen, so a recovery file needs none *)
+Theorem C06_packet_loop_vol : forall md5, (forall x, length (md5 x) = 16%nat) -> forall sid l, Forall wf_pkt l ->
+  read_file_vol md5 sid (frames md5 l) =
+    match fold_left (fun (st : option (pfile * bool)) p =>
+             match st with
+             | None => None
+             | Some (f, found) => if bytes_eqb (pk_set p) sid
+                                  then match step_packet md5 f p with Some f' => Some (f', true) | None => None end
+                                  else Some (f, found)
+             end) l (Some (pf_vol0, false)) with
+    | None => RFErr
+    | Some (f, false) => RFNoPackets
+    | Some (f, true) => match pf_client f with Some _ => RFOk sid f | None => RFErr end
+    end.
+Proof. exact read_file_frames_vol. Qed.
+Print Assumptions C06_packet_loop_vol.
+
 (* ORDER AND DUPLICATION DO NOT MATTER: two recovery files made of the same SET of well-formed
    packets - any order, any multiplicities, any interleaved packets of other recovery sets or of
    unknown types - in which own-set packets describing the same thing are identical, load to
@@ -34,6 +53,14 @@ Theorem C06_layout_invariant : forall md5, (forall x, length (md5 x) = 16%nat) -
   exists f2, read_file md5 (Some sid) (frames md5 l2) = RFOk sid f2 /\ pf_equiv f1 f2.
 Proof. exact layout_invariant. Qed.
 Print Assumptions C06_layout_invariant.
+
+(* the same for what LoadParityData calls on a recovery file (read_file_vol: no creator packet required) *)
+Theorem C06_layout_invariant_vol : forall md5, (forall x, length (md5 x) = 16%nat) -> forall sid l1 l2 f1,
+  Forall wf_pkt l1 -> Forall wf_pkt l2 -> (forall p, In p l1 <-> In p l2) -> consistent sid l1 ->
+  read_file_vol md5 sid (frames md5 l1) = RFOk sid f1 ->
+  exists f2, read_file_vol md5 sid (frames md5 l2) = RFOk sid f2 /\ pf_equiv f1 f2.
+Proof. exact layout_invariant_vol. Qed.
+Print Assumptions C06_layout_invariant_vol.
 
 (* the same for the index file, whose first packet (of its own set) fixes the set id *)
 Theorem C06_layout_invariant_index : forall md5, (forall x, length (md5 x) = 16%nat) -> forall sid l1 l2 p1 p2 f1,
